@@ -148,6 +148,7 @@ func runChild(spec *childSpec, timeout time.Duration) *childOut {
 	cmd := exec.Command(os.Args[0], "-test.run", "^TestDaemonChild$", "-test.timeout", "0")
 	cmd.Env = append(os.Environ(), "VERIF_L2_SPEC="+specPath)
 	cmd.Env = append(cmd.Env, "VERIF_JOB=", "VERIF_FAMILY=")
+	cmd.Env = append(cmd.Env, spec.Env...)
 	var stderr bytes.Buffer
 	cmd.Stderr = &stderr
 	cmd.Stdout = nil
